@@ -216,7 +216,7 @@ async def s_broken_then_shutdown(app, start, pids, created):
     return {'pids': seen + pids(), 'pools_at_begin': n, 'fails': fails}
 
 
-async def http_scenario(name, immediate):
+async def http_scenario(name, immediate, stage='diffing'):
     """A really listening application on the loopback interface, a real HTTP client with a diff request in flight (the
     upstream fetch is a local stand-in, the differ runs in a real worker), then shutdown: graceful must deliver the
     normal 200 response to the client, immediate must answer or close - and no worker may stay alive."""
@@ -238,6 +238,8 @@ async def http_scenario(name, immediate):
 
         async def fetch(self, url, **kwargs):
             import io
+            if stage == 'fetching':
+                await asyncio.sleep(1.2)        # the upstream server is slow: shutdown begins while the request is still fetching
             req = tornado.httpclient.HTTPRequest(url)
             return tornado.httpclient.HTTPResponse(req, 200, headers=tornado.httputil.HTTPHeaders({'Content-Type': 'text/html'}),
                                                    buffer=io.BytesIO(b'<p>%s</p>' % url.encode()))
@@ -253,7 +255,8 @@ async def http_scenario(name, immediate):
         app.server = tornado.httpserver.HTTPServer(app)
         app.server.add_sockets([sock])
         client = tornado.httpclient.AsyncHTTPClient(force_instance=True)
-        url = 'http://127.0.0.1:%d/slow_probe?a=http://up.test/a&b=http://up.test/b&seconds=%s' % (port, '5' if immediate else '1.0')
+        url = 'http://127.0.0.1:%d/slow_probe?a=http://up.test/a&b=http://up.test/b&seconds=%s' % (
+            port, '0.3' if stage == 'fetching' else '5' if immediate else '1.0')
         fut = asyncio.ensure_future(client.fetch(url, raise_error=False, request_timeout=20))
         await asyncio.sleep(0.5)
         pids = []
@@ -267,9 +270,15 @@ async def http_scenario(name, immediate):
             code = resp.code
         except Exception as e:  # noqa
             code = 'client error %s' % type(e).__name__
-        if not immediate and code != 200:
+        if stage == 'fetching':
+            # the request had not reached the differ when shutdown began: it must not be diffed any more, and whatever it does
+            # when its upstream content finally arrives must leave no worker behind
+            await asyncio.sleep(1.5)
+            if code == 200:
+                fails.append('a request that was still fetching when shutdown began was diffed and answered 200')
+        elif not immediate and code != 200:
             fails.append('graceful shutdown: the client of the running diff got %s instead of 200' % (code,))
-        if immediate and code == 200:
+        elif immediate and code == 200:
             fails.append('immediate shutdown: the killed diff was answered with 200')
         if immediate and time.time() - t0 > 4:
             fails.append('immediate shutdown waited for the running diff')
@@ -306,9 +315,10 @@ def main():
         except Exception as e:  # noqa
             print('%-34s FAILED: probe raised %s: %s' % (name, type(e).__name__, e), flush=True)
             ok = False
-    for name, immediate in (('HTTP request in flight, graceful', False), ('HTTP request in flight, immediate', True)):
+    for name, immediate, stage in (('HTTP request in flight, graceful', False, 'diffing'), ('HTTP request in flight, immediate', True, 'diffing'),
+                                   ('HTTP request still fetching, graceful', False, 'fetching'), ('HTTP request still fetching, immediate', True, 'fetching')):
         try:
-            ok = asyncio.run(asyncio.wait_for(http_scenario(name, immediate), 60)) and ok
+            ok = asyncio.run(asyncio.wait_for(http_scenario(name, immediate, stage), 60)) and ok
         except Exception as e:  # noqa
             print('%-34s FAILED: probe raised %s: %s' % (name, type(e).__name__, e), flush=True)
             ok = False
